@@ -45,13 +45,14 @@ class Table:
     Data Class for Table
     """
 
-    def __init__(self, name: str, schema: Schema = Schema(), **kwargs):
+    def __init__(self, name: str, schema: Optional[Schema] = None, **kwargs):
         """
         :param name: table name
-        :param schema: schema as defined by :class:`Schema`
+        :param schema: schema as defined by :class:`Schema`, the default schema configured at call time if omitted
         """
         if "." not in name:
-            self.schema = schema
+            # a Schema() default argument would be evaluated only once at import time, and miss DEFAULT_SCHEMA set later
+            self.schema = schema if schema is not None else Schema()
             self.raw_name = escape_identifier_name(name)
         else:
             schema_name, table_name = name.rsplit(".", 1)
